@@ -215,7 +215,9 @@ EXTRA_TEXT = {
            "C06_quiet_pass_identity / C06_quiet_loop_identity (nothing within the threshold => nothing moves, for any number of traces and either candidate order), C06_loop_bound, "
            "C06_pass_keeps_rows, C06_moves_within_threshold; the loops of is_endpoint_close_to_boundary and snap_trace_to_another are regenerated and proved equal to the model "
            "(C06_generated_*). Stream S06-snappass compares one real snap_traces pass and the real loop (recorder around snap_traces inside branches_and_nodes) with the model "
-           "coordinate for coordinate and decides C06's own words (boundary ends not snapped, far ends split nothing) on every disagreement.",
+           "coordinate for coordinate and decides C06's own words (boundary ends not snapped, far ends split nothing) on every disagreement. "
+           "insert_point_to_linestring and determine_insert_approach are regenerated whole (sorted/index/pop/insert) and C06_generated_insert_point proves they equal the insertion model "
+           "Snap.insertGeo for every polyline with at least two vertices; S06-generated runs the compiled regenerated insertion against the real function.",
     "C09": " Added: Validation._validate is regenerated and C09_generated_validate_step proves it equals the model step Tval.validateOne for every validator behaviour; "
            "C09_empty_area covers the documented EMPTY TARGET AREA exit (repaired defect F23); S09 includes duplicate index labels and areas void of traces.",
     "C10": " Added: the whole UnderlappingSnapValidator.validation_method (both loops, well-snapped skip, window, first hit, class attribute) is regenerated and proved equal to the "
